@@ -2,6 +2,7 @@
 //! properties: C10
 //! note: narrow claim for C10 (restart from a stale manager): blocked monitor updates that the loaded monitor already contains are dropped and newer ones kept; the close update generated for a channel whose manager is older than its monitor takes the update id right after the monitor's latest; an HTLC the stale manager still holds is looked up in the monitor by its source. Further kernel statements of C10's mechanisms are under contract in other units and tagged C10 there: the manager-older-than-monitor test (u05c), re-registering RAA blockers on reload (u02b), what FundedChannel::write leaves out (u12b), forgetting the peer's uncommitted updates (u01j)
 //! trusted: R15 (deep slices): FundedChannel::on_startup_drop_completed_blocked_mon_updates_through (the retain closure body, log statement removed R3), ChannelManager::from_channel_manager_data (the expression of the close update's id; the test that matches a manager HTLC against the monitor's outbound HTLCs), reconcile_pending_htlcs_with_monitor (the body of the closure that decides which held forwards / intercepted HTLCs are purged), verbatim as functions; PendingUpdate / HTLCSource are skeletons; HTLCSource equality is structural
+//! trusted: R15/R18 (deep slices of the function-local macro handle_in_flight_updates!): the predicate of the `.filter` that counts completed in-flight updates (the statement that tracks the maximum id is dropped) and the `replay` predicate of the `.retain`; the pushes of the background events and the bookkeeping around them are dropped and not claimed
 //! assume: nothing here decides the crash-point quantifier of C10 (every prefix of the sequence of durable writes): that is a whole-history statement outside function contracts; only the listed statements of the recovery path are decided
 use vstd::prelude::*;
 verus! {
@@ -58,6 +59,32 @@ pub struct HTLCPreviousHopData { pub outpoint: OutPoint, pub htlc_id: u64 }
     info.prev_funding_outpoint == prev_hop_data.outpoint && info.prev_htlc_id == prev_hop_data.htlc_id
 //@with
     info.prev_htlc_id == prev_hop_data.htlc_id
+//@end
+// handle_in_flight_updates! (function-local macro of from_channel_manager_data): which in-flight updates of the stale manager count as completed
+// and which are replayed into the loaded monitor
+//@extract lightning/src/ln/channelmanager.rs :: impl ChannelManager :: fn from_channel_manager_data
+//@metavars
+//@slice R15
+    .filter(|update| { max_in_flight_update_id = cmp::max(max_in_flight_update_id, update.update_id); $p:seq }) .count();
+//@with
+    fn in_flight_update_counts_as_completed(update: &MonitorUpdate, m_monitor: &MonitorStub) -> bool { $p }
+//@ret r
+//@ensures P C10 an-in-flight-update-counts-as-completed-on-restart-exactly-when-the-loaded-monitor-already-contains-it
+    r == (update.update_id <= m_monitor.latest),
+//@end
+//@extract lightning/src/ln/channelmanager.rs :: impl ChannelManager :: fn from_channel_manager_data
+//@metavars
+//@slice R15
+    let replay = $e:seq; if replay {
+//@with
+    fn in_flight_update_is_replayed(update: &MonitorUpdate, m_monitor: &MonitorStub) -> bool { let replay = $e; replay }
+//@ret r
+//@ensures P C10 an-in-flight-update-is-replayed-on-restart-exactly-when-the-loaded-monitor-does-not-contain-it-yet
+    r == (update.update_id > m_monitor.latest),
+//@mutant update_the_monitor_already_has_replayed
+    let replay = update.update_id > m_monitor.get_latest_update_id();
+//@with
+    let replay = update.update_id >= m_monitor.get_latest_update_id();
 //@end
 pub struct MonitorStub { pub latest: u64 }
 impl MonitorStub { #[verifier::external_body] pub fn get_latest_update_id(&self) -> (r: u64) ensures r == self.latest { unimplemented!() } }
